@@ -34,6 +34,8 @@ func main() {
 		c30()
 	case "C29":
 		c29()
+	case "SMOKE":
+		smoke()
 	default:
 		fmt.Printf("ENGINE-ERROR property=%s not implemented by harness/server\n", os.Args[1])
 		os.Exit(2)
